@@ -339,13 +339,17 @@ func (x *expectCtx) boundaryAccepts(rp *ssa.Parameter) EdgeSet {
 		}
 		// dominated by a boundary comparison's true edge
 		for _, bb := range x.fn.Blocks {
-			cond2, tE2, _, ok2 := branchEdges(bb)
+			cond2, tE2, fE2, ok2 := branchEdges(bb)
 			if !ok2 {
 				continue
 			}
 			bo, ok := cond2.(*ssa.BinOp)
-			if !ok || bo.Op != token.EQL {
+			if !ok || (bo.Op != token.EQL && bo.Op != token.NEQ) {
 				continue
+			}
+			if bo.Op == token.NEQ {
+				// `pos != len(l) || !isVoid(want)` (benign A-r1): the boundary is the false outcome
+				tE2 = fE2
 			}
 			isBoundary := false
 			if k, ok := constInt(bo.Y); ok && k == -1 {
@@ -1211,6 +1215,75 @@ func ruleCreateOnlyMerge(w *World, r *Report, pf *patchFamily, scope func(*ssa.F
 			}
 		}
 		k := 0
+		isFreshObject := func(in ssa.Instruction) bool {
+			v, ok := in.(ssa.Value)
+			if !ok || strip(v) != v {
+				return false
+			}
+			switch y := v.(type) {
+			case *ssa.MakeMap:
+				if typeName(y.Type()) != "jsonObject" {
+					return false
+				}
+				for _, ref := range *y.Referrers() {
+					if _, isUpd := ref.(*ssa.MapUpdate); isUpd {
+						return false
+					}
+				}
+				return true
+			case *ssa.Call:
+				sf := staticCallee(y)
+				if sf != nil && sf.Blocks != nil && fnPkg(sf) == pf.pkg.Pkg && len(sf.Params) == 0 && sf.Signature.Results().Len() == 1 && typeName(sf.Signature.Results().At(0).Type()) == "jsonObject" {
+					for _, ret := range returnsOf(sf) {
+						if _, isMM := strip(ret.Results[0]).(*ssa.MakeMap); !isMM {
+							return false
+						}
+					}
+					return true
+				}
+			}
+			return false
+		}
+		siteOK := func(b *ssa.BasicBlock) bool {
+			okCut := len(cut) > 0 && cutsOff(fn, cut, b)
+			if !okCut {
+				if sp := pf.roleParam(fn, "strategy"); sp != nil {
+					strict := pf.strategyConst("strictPatchStrategy").Value.Value.ExactString()
+					fs := NewFactsEntry(fn, closedEnums(w, pf.pkg), state{term{v: sp, isLen: false}: fact{lo: math.MinInt64, hi: math.MaxInt64, eq: strict}})
+					if _, reach := fs.At(b); !reach {
+						okCut = true
+					}
+				}
+			}
+			return okCut
+		}
+		// a helper outside the family that a member hands the work to (benign A-r4: the merge descent
+		// extracted into a function of its own): its fresh objects count at the member's call site
+		allInstrs(fn, func(in ssa.Instruction) {
+			c, ok := in.(*ssa.Call)
+			if !ok {
+				return
+			}
+			g := staticCallee(c)
+			if g == nil || g.Blocks == nil || fnPkg(g) != pf.pkg.Pkg || pf.member[g] || len(g.Params) == 0 {
+				return
+			}
+			has := false
+			allInstrs(g, func(in2 ssa.Instruction) {
+				if isFreshObject(in2) {
+					has = true
+				}
+			})
+			if !has {
+				return
+			}
+			n++
+			k++
+			r.Fn(fnName(fn))
+			r.Check(siteOK(c.Block()), rule, fmt.Sprintf("%s:fresh-object-in-%s#%d", fnName(fn), g.Name(), k), w.Pos(c.Pos()),
+				"the helper that produces a fresh empty object is called only where the strategy cannot be strict",
+				"a helper that produces a fresh empty object (a stand-in for a missing parent) can be called under strict strategy: a strict hunk whose path leads through a missing member is applied to a made-up parent instead of being rejected")
+		})
 		allInstrs(fn, func(in ssa.Instruction) {
 			v, ok := in.(ssa.Value)
 			if !ok || strip(v) != v {
